@@ -239,9 +239,61 @@ def compare(c, ir, mv):
         return None if ir[0] == 'timeout' else 'model ran out of fuel, implementation %r' % (ir[0],)
     return 'model: %r' % (mv,)
 
+# ---- the fields of a channel state, read independently of the implementation's channel parsers ----
+# (offsets from the Director 4 / Director 5 score formats; only the transition names come from drxtract.common)
+def _h(b, o):
+    return struct.unpack('>h', bytes(b[o:o + 2]))[0]
+def _op_name(code):
+    op = (code >> 4) & 0xF
+    if op & 8:
+        return 'color_cycling_auto_reverse' if op & 1 else 'color_cycling_loop'
+    if op & 4:
+        return 'fade_to_black' if op & 2 else 'fade_to_white'
+    return str(op)
+def _transition_name(v):
+    from drxtract.common import DIR_TRANSITION_NAMES
+    return DIR_TRANSITION_NAMES[v] if v in DIR_TRANSITION_NAMES else str(v)
+def ref_main(fs, b):
+    if fs == 20:
+        fps, s1, s2, script = b[4], _h(b, 6), _h(b, 8), _h(b, 16)
+        if not (fps or s1 or s2 or script):
+            return {}
+        return {'fps': fps, 'transition_id': _transition_name(b[5]), 'sound1_cast': s1, 'sound2_cast': s2, 'script': script,
+                'transition_chunk_size': b[3], 'transition_duration': b[2] & 0x7F}
+    script, s1, s2, tc, fps = _h(b, 2), _h(b, 6), _h(b, 10), _h(b, 14), _h(b, 20)
+    if not (fps or s1 or s2 or script):
+        return {}
+    return {'fps': fps, 'transition_cast_id': tc, 'sound1_cast': s1, 'sound2_cast': s2, 'script': script}
+def ref_palette(fs, b):
+    if fs == 20:
+        pid, op, fps, cycles = _h(b, 0), b[4], b[5], _h(b, 8)
+    else:
+        pid, fps, op, cycles = _h(b, 2), b[4], b[5], _h(b, 10)
+    if pid == 0:
+        return {}
+    return {'fps': fps, 'operation': _op_name(op), 'palette_id': pid, 'cycles': cycles}
+def ref_sprite(fs, b):
+    if fs == 20:
+        cast = _h(b, 6)
+        if cast <= 0:
+            return {}
+        flag2 = _h(b, 18) & 0xFFFF
+        return {'spriteType': _h(b, 0), 'castId': cast, 'foregroundColor': b[2], 'backgroundColor': b[3], 'ink_type': b[5] % 64,
+                'flags': b[4], 'y': _h(b, 8), 'x': _h(b, 10), 'height': _h(b, 12), 'width': _h(b, 14), 'trails': 0,
+                'moveable': bool((flag2 >> 15) & 1), 'editable': bool((flag2 >> 14) & 1)}
+    cast = _h(b, 4)
+    if cast <= 0:
+        return {}
+    flag2 = _h(b, 20) & 0xFFFF
+    return {'spriteType': _h(b, 2), 'castId': cast, 'foregroundColor': b[10], 'backgroundColor': b[11], 'ink_type': b[1] % 64,
+            'y': _h(b, 12), 'x': _h(b, 14), 'height': _h(b, 16), 'width': _h(b, 18), 'trails': 0,
+            'moveable': bool((flag2 >> 15) & 1), 'editable': bool((flag2 >> 14) & 1)}
+def _sorted_entry(e):
+    return [sorted(e[0]), sorted(e[1]), [sorted(x) for x in e[2]]]
 def fields_of(fs, state, column):
-    from drxtract.vwsc.vwsc import CHANNEL_PARSERS
-    return canon_entry(CHANNEL_PARSERS[fs].parse_vwsc_channels(bytearray(state), column))
+    chans = [bytes(state[i:i + fs]) for i in range(0, len(state), fs)]
+    return _sorted_entry([canon_dict(ref_main(fs, chans[0])), canon_dict(ref_palette(fs, chans[1])),
+                          [canon_dict(ref_sprite(fs, ch)) for ch in chans[2:]]])
 
 def oracle(c, ir):
     if c['kind'] == 'raw':
@@ -253,7 +305,7 @@ def oracle(c, ir):
         return '%d frames decoded, %d records stored' % (len(ir[1]), len(sts))
     for k, st in enumerate(sts):
         exp = fields_of(c['fs'], st, k + 1)
-        if ir[1][k] != exp:
+        if ir[1][k] == [] or _sorted_entry(ir[1][k]) != exp:
             return 'frame %d differs from the fields of the state after records 1..%d' % (k + 1, k + 1)
     return None
 
